@@ -887,8 +887,16 @@ fn must_be_ambiguous(p: &Pres, s: &RSchema, env: &Env) -> bool {
 	match p {
 		Pres::I32(_) => count(&int4) >= 2,
 		Pres::I64(_) => count(&int8) >= 2,
-		Pres::Str(_) => count(&|k| matches!(k, RSchema::String | RSchema::Logical(Logical::Uuid, _))) >= 2,
-		Pres::Bytes(b) => count(&|k| matches!(k, RSchema::Bytes)) >= 1 && count(&|k| matches!(k, RSchema::Fixed { size, .. } if *size == b.len())) >= 1,
+		Pres::Str(st) => {
+			count(&|k| matches!(k, RSchema::String | RSchema::Logical(Logical::Uuid, _))) >= 2
+				// no branch takes strings as such, and several enums have that very symbol
+				|| (count(&|k| matches!(k, RSchema::String | RSchema::Bytes | RSchema::Fixed { .. } | RSchema::Logical(..))) == 0
+					&& count(&|k| matches!(k, RSchema::Enum { symbols, .. } if symbols.contains(st))) >= 2)
+		}
+		Pres::Bytes(b) => {
+			(count(&|k| matches!(k, RSchema::Bytes)) >= 1 && count(&|k| matches!(k, RSchema::Fixed { size, .. } if *size == b.len())) >= 1)
+				|| (count(&|k| matches!(k, RSchema::Bytes | RSchema::String | RSchema::Logical(..))) == 0 && count(&|k| matches!(k, RSchema::Fixed { size, .. } if *size == b.len())) >= 2)
+		}
 		Pres::Map { entries, .. } => {
 			let keys: Vec<&str> = entries.iter().filter_map(|(k, _)| if let Pres::Str(k) = k { Some(k.as_str()) } else { None }).collect();
 			count(&|k| matches!(k, RSchema::Record { fields, .. } if fields.len() == keys.len() && fields.iter().all(|(n, _)| keys.contains(&n.as_str())))) >= 2
